@@ -25,6 +25,10 @@ def gen(ck, params, cfgs):
             pairs.append(("equal exactly at (%d,%d)" % (cm, i), base, b2, zero))
             z1 = [row[:] for row in zero]; z1[cm][i] = 1 + ck.rng.randrange(ps[cm] - 1)
             pairs.append(("one non-zero at (%d,%d)" % (cm, i), z1, zero, z1))
+            # a single non-zero residue that is a pure power of two (every bit position of the limb that fits below p)
+            kbit = ck.rng.choice([k for k in (0, 7, 8, 15, 16, 24, 31, 32, 33, 40, 48, 56, 61) if (1 << k) < ps[cm]][-6:])
+            z2 = [row[:] for row in zero]; z2[cm][i] = 1 << kbit
+            pairs.append(("one non-zero power of two at (%d,%d)" % (cm, i), z2, zero, z2))
             # a + b == c with c wrong only at one place / right everywhere
             s = [[(x + y) % p for x, y in zip(ra, rb)] for p, ra, rb in zip(ps, base, b2)]
             pairs.append(("sum equal", base, b2, s))
